@@ -239,6 +239,8 @@ def r6_reads_are_whole_and_direct(ctx):
 
 
 def run(ctx):
+    from . import effects
+    effects.check_property(ctx, "C06")    # R06.E: no operation on shared protocol state outside the reviewed table
     from . import C01, C20
     C20.r14_gauges_released_on_every_exit(ctx)    # a holder of the password always gets a session: failed attempts by others do not use up a limit for good
     C01.r13_no_cancel_and_retry_of_framed_reads(ctx)
